@@ -39,7 +39,7 @@ pub struct Sym {
 
 impl Sym {
     pub fn new(ops: &[Op]) -> Self {
-        let multi = ops.iter().any(|o| matches!(o, Op::Open { .. }));
+        let multi = ops.iter().any(|o| matches!(o, Op::Open { .. } | Op::OpenKey { .. }));
         let mut s = Sym {
             open: [None, None, None],
             cur: 0,
@@ -76,6 +76,10 @@ impl Sym {
                 self.incarnations += 1;
             }
             Op::Close { inst } => self.open[*inst as usize % 3] = None,
+            Op::OpenKey { .. } => {
+                self.open[0] = Some((0, 0));
+                self.cur = 0;
+            }
             _ => {}
         }
     }
@@ -353,6 +357,53 @@ impl Ctx {
                 self.close_inst(i);
                 self.sym.open[i] = None;
                 Res::Unit
+            }
+            Op::OpenKey { key, ctor } => {
+                self.close_inst(0);
+                let data = self.root.join("data");
+                let _ = std::fs::create_dir_all(&data);
+                let _ = std::fs::write(self.root.join("sentinel"), b"s");
+                verif::set_clock(0);
+                let cons = ReadConsistency::StrictlyAtOnce;
+                let key = key.clone();
+                let ctor = *ctor;
+                let r = catch_unwind(AssertUnwindSafe(|| -> std::io::Result<Walrus> {
+                    if ctor != 4 {
+                        unsafe { std::env::set_var("WALRUS_DATA_DIR", &data) };
+                    }
+                    match ctor {
+                        0 => Walrus::new_for_key(&key),
+                        1 => Walrus::with_consistency_for_key(&key, cons),
+                        2 => Walrus::with_consistency_and_schedule_for_key(&key, cons, FsyncSchedule::NoFsync),
+                        3 => Walrus::builder().key(&key).fsync_schedule(FsyncSchedule::NoFsync).build(),
+                        4 => Walrus::builder().data_dir(data.clone()).key(&key).fsync_schedule(FsyncSchedule::NoFsync).build(),
+                        5 => {
+                            if key.contains('\0') {
+                                return Err(std::io::Error::new(std::io::ErrorKind::InvalidInput, "NUL in env value"));
+                            }
+                            unsafe { std::env::set_var("WALRUS_INSTANCE_KEY", &key) };
+                            let r = Walrus::with_consistency_and_schedule(cons, FsyncSchedule::NoFsync);
+                            unsafe { std::env::remove_var("WALRUS_INSTANCE_KEY") };
+                            r
+                        }
+                        _ => {
+                            walrus_rust::wal::__set_thread_namespace_for_tests(&key);
+                            let r = Walrus::with_consistency_and_schedule(cons, FsyncSchedule::NoFsync);
+                            walrus_rust::wal::__clear_thread_namespace_for_tests();
+                            r
+                        }
+                    }
+                }));
+                self.sym.open[0] = Some((0, 0));
+                self.sym.cur = 0;
+                match r {
+                    Ok(Ok(w)) => {
+                        self.inst[0] = Some(w);
+                        Res::Ok
+                    }
+                    Ok(Err(e)) => Res::Err(format!("open:{}", err_kind(&e))),
+                    Err(p) => Res::Panic(format!("open:{}", panic_msg(p))),
+                }
             }
         }
     }
